@@ -704,7 +704,7 @@ def probes_of(ops, rng=None, cap=12):
     return seen[:cap]
 
 def gen(rng, tier):
-    n = 260 if tier == 'quick' else 3000
+    n = 260 if tier == 'quick' else 8000
     cases = []
     for _ in range(n):
         g = Gen(rng)
